@@ -17,7 +17,7 @@
 //!   Observation: (tobs <result> <return-ms> <socket-removed> (c <accepted-ms> <complete> <closed-ms>)*)
 //!     result = ok | timeout | err
 use crate::rng::Rng;
-use crate::suites::wire::{self, build_service_opts, configs, dec_table, gen_request, split_replies, stream_of, SvcCfg};
+use crate::suites::wire::{self, build_service_opts, configs, dec_table, gen_malformed, gen_request, split_replies, stream_of, SvcCfg};
 use crate::sx::{self, Sx};
 use crate::{Case, Ctx, Suite};
 use std::io::{Read, Write};
@@ -191,7 +191,9 @@ fn run_conc(l: &[Sx]) -> Sx {
                 if conn.write_all(ch).is_err() {
                     break;
                 }
-                if i % 3 == 2 {
+                if kind == "slow" {
+                    thread::sleep(Duration::from_millis(25));
+                } else if i % 3 == 2 {
                     thread::sleep(Duration::from_millis(1));
                 } else {
                     thread::yield_now();
@@ -378,9 +380,16 @@ fn gen_conc(rng: &mut Rng, cfgs: &[SvcCfg], tok: &mut usize, nclients: usize, tr
         tags.push(format!("kind:{}", kind));
         let len = rng.range(1, 8);
         let mut reqs = Vec::new();
-        for _ in 0..len {
+        // a faulty peer beside healthy ones: a malformed message somewhere in the pipeline
+        let bad_at = if rng.chance(1, 5) { rng.below(len) } else { usize::MAX };
+        for i in 0..len {
             *tok += 1;
-            reqs.push(gen_request(rng, cfg, &format!("t{}z", *tok)));
+            if i == bad_at {
+                reqs.push(gen_malformed(rng, cfg, &format!("t{}z", *tok)));
+                tags.push("malformed-in-pipeline".into());
+            } else {
+                reqs.push(gen_request(rng, cfg, &format!("t{}z", *tok)));
+            }
         }
         let mut total = stream_of(&reqs);
         if kind == "dropmid" && total.len() > 3 {
@@ -400,7 +409,25 @@ fn gen_conc(rng: &mut Rng, cfgs: &[SvcCfg], tok: &mut usize, nclients: usize, tr
                 tags.push("upgrade-with-payload".into());
             }
         }
-        let chunks = if kind == "idle" {
+        let mut kind = kind;
+        let chunks = if bad_at != usize::MAX && kind == "half" && rng.chance(2, 3) {
+            // a slow faulty peer: every message is its own segment, with pauses, so that what follows
+            // the malformed message arrives after the server has dealt with it
+            kind = "slow";
+            tags.push("kind:slow".into());
+            let mut cs = Vec::new();
+            let mut start = 0;
+            for (i, b) in total.iter().enumerate() {
+                if *b == 0 {
+                    cs.push(total[start..=i].to_vec());
+                    start = i + 1;
+                }
+            }
+            if start < total.len() {
+                cs.push(total[start..].to_vec());
+            }
+            cs
+        } else if kind == "idle" {
             Vec::new()
         } else {
             let k = rng.range(0, 5);
